@@ -407,8 +407,25 @@ func (fv *FV) elemComp(elem types.Type) (key, sort string) {
 	es := fv.sortOf(elem)
 	key = "E:" + es
 	sort = arr(sInt, arr(sInt, es))
+	if es == sInt && isRefType(elem) {
+		// arrays of references (pointers to structs, maps) are kept apart from arrays of integers, so that
+		// "every stored reference is allocated" can be stated for them
+		key = "E:Int#ref"
+		fv.compKind[key] = "refelems"
+	}
 	fv.compSort[key] = sort
 	return
+}
+
+func isRefType(t types.Type) bool {
+	switch u := types.Unalias(t).Underlying().(type) {
+	case *types.Map:
+		return true
+	case *types.Pointer:
+		_, isStruct := u.Elem().Underlying().(*types.Struct)
+		return isStruct
+	}
+	return false
 }
 
 func compConst(key string) string { return "|" + key + "@0|" }
@@ -446,6 +463,15 @@ func (fv *FV) wfAxioms(key, c, alloc string) {
 	}
 	if fv.compKind[key] == "ptr" {
 		fv.axioms = append(fv.axioms, fmt.Sprintf("(forall ((r Int)) (! (select %s (select %s r)) :pattern ((select %s r))))", alloc, c, c))
+	}
+	if fv.compKind[key] == "refelems" {
+		fv.axioms = append(fv.axioms, fmt.Sprintf("(forall ((r Int) (x Int)) (! (select %s (select (select %s r) x)) :pattern ((select (select %s r) x))))", alloc, c, c))
+	}
+	if fv.compKind[key] == "mapdom" {
+		// the nil map has no keys
+		_, inner := arraySorts(sort)
+		ks, _ := arraySorts(inner)
+		fv.axioms = append(fv.axioms, eq(sel(c, "0"), fv.emptyDom(ks)))
 	}
 	if sort == arr(sInt, arr(sInt, sSlice)) && fv.paramHasNestedSlices() {
 		fv.axioms = append(fv.axioms, fmt.Sprintf("(forall ((r Int) (x Int)) (! (let ((s (select (select %s r) x))) (and (<= 0 (soff s)) (<= 0 (slen s)) (<= (slen s) (scap s)) (=> (= (sbase s) 0) (= (scap s) 0)) (select %s (sbase s)))) :pattern ((select (select %s r) x))))", c, alloc, c))
